@@ -194,7 +194,7 @@ func TestVerifReplay(t *testing.T) {
 						model = append(model, id(pool[o.i]))
 					}
 				case "append3":
-					args := []Item{pool[o.i], pool[(o.i+1)%len(pool)], pool[(o.i+2)%len(pool)]}
+					args := []Item{pool[o.i], pool[(o.i+1)%len(pool)], pool[(o.i+2)%len(pool)], pool[o.i]} // the first once more: one call naming an item twice
 					_ = c.Append(args...)
 					for _, a := range args {
 						if has(id(a)) < 0 {
